@@ -21,4 +21,8 @@ CHECKS = {
         "text": "Theorems (closed under the global context), by induction over the whole input with an explicit loop invariant for Deduplicate's fold: kept rows are exactly the first occurrences of each distinct comparison key in original order, keys of kept rows are pairwise distinct, one group per kept row headed by its name, groups together a permutation of the input names, idempotence; for Compress: patterns pairwise distinct, exactly the distinct input columns in bytewise order, weights = exact multiplicities, weights sum to L, and every Z-valued column-additive statistic is preserved (sum over columns = weighted sum over patterns).",
         "note": "Trusted: kernel+VM, harness, hand model (radix-tree walk = sorted distinct patterns; in-place rewrite = new rows).",
     },
+    "C15": {
+        "text": "Theorems (closed under the global context): pointwise characterisation of every residue after Mask (replaced iff inside the window and not protected by the gap / reference flags, otherwise untouched), outside-window and protected residues unchanged, names/order/length unchanged, exact error conditions, overhanging windows equal truncated ones, the MAJ replacement is a most frequent byte (proved over the fold of the 130-entry table); for MaskOccurences/MaskUnique the pointwise characterisation with 'masked iff counted, non-gap, count within (0, threshold], different from the replacement'.",
+        "note": "Trusted: kernel+VM, harness, hand model (in-place column loops as per-row maps; ASCII residues).",
+    },
 }
